@@ -1400,6 +1400,12 @@ def op_indexaddr(ex, g, fr, i):
     if isinstance(x, Poison):
         fr.regs[i["reg"]] = x
         return
+    if isinstance(x, Opaque):
+        I = to_bv(widen(ex, idx, it), 64)
+        if not ex.branch(z3.ULT(I, to_bv(x.len, 64))):
+            raise GoPanic("index-out-of-range", "opaque slice")
+        fr.regs[i["reg"]] = Ptr([ex.havoc(8, "ob")], 0)
+        return
     if isinstance(x, Slice):
         if x.arr is None:
             raise GoPanic("index-out-of-range", "index of nil/empty slice")
@@ -1673,6 +1679,15 @@ def op_slice(ex, g, fr, i):
     if k == "string":
         l, h, m = slice_bounds(ex, low, high, None, len(x), len(x), True)
         fr.regs[i["reg"]] = x[l:h]
+        return
+    if k == "slice" and isinstance(x, Opaque):
+        L = to_bv(low if low is not None else 0, 64)
+        H = to_bv(high if high is not None else x.len, 64)
+        C = to_bv(x.len, 64)
+        if not ex.branch(z3.And(z3.ULE(L, H), z3.ULE(H, C))):
+            raise GoPanic("slice-bounds-out-of-range", "opaque slice")
+        r = simp(H - L)
+        fr.regs[i["reg"]] = Opaque(r.as_long() if z3.is_bv_value(r) else r)
         return
     if k == "slice":
         l, h, m = slice_bounds(ex, low, high, mx, x.len, x.cap, False)
